@@ -99,6 +99,20 @@ static void cmd_mat(kv_t *K)
 	if (!strcmp(sc, "col") || !strcmp(sc, "both")) f *= ldexp(1.0, ((j * 7) % 11 - 5) * 5);
 	if (f != 1.0) M.val[k] = from_lc(to_lc(M.val[k]) * (lc) f);
     }
+    /* scalings that force the ONE-SIDED outcomes: "colonly": every row keeps its largest entry of magnitude [1,2) (so the row
+       scale factors are balanced) while the columns that hold no row maximum shrink by 2^-6k (equed = COL); "rowonly" is the
+       transposed construction (equed = ROW, the column maxima of the row-scaled matrix stay >= 1/2) */
+    if (!strcmp(sc, "colonly") || !strcmp(sc, "rowonly")) {
+	int byrow = !strcmp(sc, "colonly"); double *mx = (double *) calloc(n + 1, sizeof(double)); int *arg = (int *) malloc(sizeof(int) * (n + 1)); char *keep = (char *) calloc(n + 1, 1);
+	for (i = 0; i < n; ++i) arg[i] = -1;
+	for (j = 0; j < n; ++j) for (k = M.colptr[j]; k < M.colptr[j + 1]; ++k) { int a = byrow ? (int) M.rowind[k] : j; double v = (double) cabsl(to_lc(M.val[k])); if (v > mx[a]) mx[a] = v; }
+	for (j = 0; j < n; ++j) for (k = M.colptr[j]; k < M.colptr[j + 1]; ++k) { int a = byrow ? (int) M.rowind[k] : j; int e2; if (mx[a] > 0) { frexp(mx[a], &e2); M.val[k] = from_lc(to_lc(M.val[k]) * (lc) ldexp(1.0, 1 - e2)); } }
+	for (i = 0; i < n; ++i) mx[i] = 0;
+	for (j = 0; j < n; ++j) for (k = M.colptr[j]; k < M.colptr[j + 1]; ++k) { int a = byrow ? (int) M.rowind[k] : j, b = byrow ? j : (int) M.rowind[k]; double v = (double) cabsl(to_lc(M.val[k])); if (v > mx[a]) { mx[a] = v; arg[a] = b; } }
+	for (i = 0; i < n; ++i) if (arg[i] >= 0) keep[arg[i]] = 1;
+	for (j = 0; j < n; ++j) for (k = M.colptr[j]; k < M.colptr[j + 1]; ++k) { int b = byrow ? j : (int) M.rowind[k]; if (!keep[b]) M.val[k] = from_lc(to_lc(M.val[k]) * (lc) ldexp(1.0, -6 * (1 + (b * 7) % 7))); }
+	free(mx); free(arg); free(keep);
+    }
     {   const char *zc = kv_s(K, "zc", 0);     /* exactly zero columns (explicit zeros) */
 	if (zc) { char *v = strdup(zc), *s2 = 0, *t; sing = 1; for (t = strtok_r(v, ",", &s2); t; t = strtok_r(0, ",", &s2)) { int c = atoi(t); if (c >= 0 && c < n) for (k = M.colptr[c]; k < M.colptr[c + 1]; ++k) M.val[k] = mk_scalar(0, 0); } free(v); }
     }
